@@ -298,6 +298,10 @@ func P3() []*Program {
 	for _, a := range steps {
 		chains = append(chains, []string{a, steps[(indexOf(steps, a)+1)%4], steps[(indexOf(steps, a)+2)%4]})
 	}
+	// inline objects nested in inline objects below a payload / referenced packet (where the enclosing
+	// dissector / codec is itself a sub-routine), plain and repeated
+	chains = append(chains, []string{"match", "inline", "inline"}, []string{"match", "repinline", "repinline"}, []string{"match", "repinline", "inline"},
+		[]string{"ref", "inline", "inline"}, []string{"ref", "repinline", "repinline"}, []string{"repinline"}, []string{"repinline", "repinline"}, []string{"match", "repinline"})
 	for _, ch := range chains {
 		for _, lf := range leaves {
 			var packets []*Packet
@@ -315,6 +319,8 @@ func P3() []*Program {
 					fields = []*Field{Rep(Ob(name, fmt.Sprintf("Child%d", lvl))), Sc("u8", fmt.Sprintf("Post%d", lvl))}
 				case "inline":
 					fields = []*Field{In(name, inner...), Sc("u8", fmt.Sprintf("Post%d", lvl))}
+				case "repinline":
+					fields = []*Field{Sc("u8", fmt.Sprintf("Pre%d", lvl)), Rep(In(name, inner...))}
 				case "match":
 					packets = append(packets, Pk(name, inner...))
 					other := fmt.Sprintf("Other%d", lvl+1)
